@@ -325,10 +325,10 @@ class H:
         """out == +-q for unit q. Symbolic form: (out.q)^2 == 1 (equivalent when |out| = |q| = 1, which the caller
         checks separately); concrete form: component-wise"""
         if self.sym:
-            d = 0.0
+            d = 0
             for a, b in self._pairs(out, q):
-                d = d + a * b
-            return self.eq(d * d, 1.0, tol)
+                d = d + self._exact(a) * self._exact(b)
+            return self.eq(d * d, 1, tol)
         return self.eq_up_to_sign(out, q, tol)
 
     def angle_eq(self, a, b, unit='rad'):
@@ -344,11 +344,18 @@ class H:
         t = self.tol * (1 if unit == 'rad' else 180 / math.pi)
         return P.c(abs(d) <= t, abs(d) <= t * 1e-3, f"angle err {d:.3g}")
 
+    def _exact(self, e):
+        """in symbolic mode concrete floats take part in harness arithmetic as the rationals they stand for"""
+        if self.sym and isinstance(e, (builtins.float, _np.floating)) and e == e and abs(e) != math.inf:
+            return core.nice_fraction(builtins.float(e))
+        return e
+
     def is_unit(self, v, tol=None):
-        s = 0.0
+        s = 0
         for e in _flat(v):
+            e = self._exact(e)
             s = s + e * e
-        return self.eq(s, 1.0, tol)
+        return self.eq(s, 1, tol)
 
     def is_rotation(self, R, tol=None):
         R = _np.asarray(R)
@@ -461,7 +468,7 @@ class H:
 # ----------------------------------------------------------------------------------------------
 class Harness:
     def __init__(self, fn, name, tiers, max_paths, timeout_ms, allowed_exc, doc, functions, bounds, stubs,
-                 escalate_s, kind, strata, max_decisions=400, algcert_s=6.0):
+                 escalate_s, kind, strata, max_decisions=400, algcert_s=6.0, conc_tol=CONC_TOL):
         self.fn, self.name, self.tiers = fn, name, tiers
         self.max_paths, self.timeout_ms, self.allowed_exc = max_paths, timeout_ms, allowed_exc
         self.doc, self.functions, self.bounds, self.stubs = doc, functions, bounds, stubs
@@ -470,16 +477,17 @@ class Harness:
         self.strata = strata
         self.max_decisions = max_decisions
         self.algcert_s = algcert_s
+        self.conc_tol = conc_tol
 
 
 REGISTRY = {}
 
 
 def harness(name, tiers=('quick', 'thorough'), max_paths=64, timeout_ms=700, allowed_exc=(), functions=(), bounds='',
-            stubs=(), escalate_s=None, kind='property', strata=None, max_decisions=400, algcert_s=6.0):
+            stubs=(), escalate_s=None, kind='property', strata=None, max_decisions=400, algcert_s=6.0, conc_tol=CONC_TOL):
     def deco(fn):
         REGISTRY[name] = Harness(fn, name, tiers, max_paths, timeout_ms, allowed_exc, (fn.__doc__ or '').strip(),
-                                 list(functions), bounds, list(stubs), escalate_s, kind, strata, max_decisions, algcert_s)
+                                 list(functions), bounds, list(stubs), escalate_s, kind, strata, max_decisions, algcert_s, conc_tol)
         return fn
     return deco
 
@@ -506,7 +514,7 @@ def run_conc(h, env, rng=None, tier='quick', replay_kf=None):
     """run harness function concretely on the unpatched repository code"""
     proxy.unpatch()
     CTX.mode = 'conc'
-    hh = H('conc', env=env, rng=rng, tier=tier)
+    hh = H('conc', env=env, rng=rng, tier=tier, tol=getattr(h, 'conc_tol', CONC_TOL))
     hh.replay_kf = replay_kf
     res = dict(exc=None, nonfinite=[], failed=[], assume_failed=[], outs={}, sampled={})
     old = _np.seterr(all='ignore')
